@@ -73,6 +73,10 @@ add("C18", "hist", "explicit-state BFS; per-label event automaton on every build
     "Every build (incl. failing, always and dry builds) of the BFS is monitored: per label UpToDate | Evaluating Print* (Succeeded|Failed) | lone Failed only for missing/cyclic dependency; Prints only inside; exactly one RunDone, last, carrying Run's error; Evaluating <=> the body ran.",
     HIST_NOTE + " Output chunking and schedule exploration of Project.Run are parts (b),(c) of the harness (see DESIGN.md).", "DESIGN.md section 5 C18")
 
+add("C03", "hist+vsched+vos", "enumeration of every crash point between persistent effects (plus torn in-place writes) of real builds under the controlled scheduler, then BFS of recovery histories",
+    "For 11 (quick) / 28 (thorough) pre-state histories x 3 build targets the real Load+Run executes under the controlled scheduler with os redirected to an effect-announcing shim: the directory at each of the ~20-60 effect points (record temp create/write/rename, mkdir, index truncate/write, each emit of a two-step body) and each torn prefix of in-place writes is a crash state (quick: default linearisation; thorough: all schedules with <=1 preemption, capped). From every distinct crash state: Load must succeed with and without the index, and a breadth-first search of depth 2 (3) over builds and edits must end every successful build with a current closure (unfinished/failed executions count as not executed) and outputs equal to a from-scratch build. Failure patterns of bodies are in the pre-states and alphabet.",
+    HIST_NOTE + " Crash model = process death (no power-loss reordering), as the property states.", "DESIGN.md sections 3.4, 5 C03")
+
 NA = {
 }
 for i in range(1, 21):
